@@ -23,7 +23,7 @@ PROPS = {
     "C01": dict(
         domains=[("codec", "build", 12000, 150000), ("codec", "decode", 6000, 80000), ("codec", "frame", 2000, 40000)],
         relevant=["C01:"],
-        theorems=['DV.Props.C01.C01_api_avps', 'DV.Props.C01.C01_api_reserialise', 'DV.Props.C01.C01_api_same_tree', 'DV.Props.C01.C01_api_msg', 'DV.Props.C01.C01_wire_counterexample_v4mapped', 'DV.Props.C01.C01_wire_counterexample_other16', 'DV.Props.C01.C01_wire_counterexample_other4', 'DV.Props.C01.C01_gen'],
+        theorems=['DV.Props.C01.C01_api_avps', 'DV.Props.C01.C01_api_reserialise', 'DV.Props.C01.C01_api_same_tree', 'DV.Props.C01.C01_api_msg', 'DV.Props.C01.C01_wire_counterexample_v4mapped', 'DV.Props.C01.C01_wire_counterexample_other16', 'DV.Props.C01.C01_wire_counterexample_other4', 'DV.Props.C01.C01_wire_partial', 'DV.Props.C01.C01_wire_reads', 'DV.Props.C01.C01_wire_msg', 'DV.Props.C01.C01_gen'],
         gen_obligations=['Gen.HeaderLength', 'Gen.Vbit', 'Gen.rfc868offset', 'Gen.rfc2030offset', 'Gen.typeIds', 'Gen.hdrLayoutEnc = Gen.hdrLayoutDec', 'Gen.available ⊆ Gen.decoderKeys'],
         trusted=CODEC_TRUST,
     ),
